@@ -1,5 +1,4 @@
 //@include prelude/head.rs
-use std::collections::HashSet;
 broadcast use {ax::axiom_string_eq_spec, ax::axiom_string_obeys_eq, ax::axiom_string_to_string, vstd::std_specs::hash::group_hash_axioms, axh::axiom_uuid_key_model};
 //@include prelude/hash.rs
 //@props C15
